@@ -110,7 +110,8 @@ def run(ctx):
             near = re.search(r"near '([a-z_]+)'", x["err"])
             kwfunc = bool(near and re.search(r"`%s`\s*\(" % near.group(1), c["sql"], re.I) and re.search(r"(?<![`\w])%s\(" % near.group(1), x["printed"], re.I))
             placeholder = x["printed"].split(" ")[0] in ("otherread", "otheradmin")
-            ctx.violation({"site": "sqlparser.String", "why": "printed text does not parse", "features": f[:6], "src": c["src"], "keyword_function_name": kwfunc, "placeholder_statement": placeholder},
+            kwunit = bool(near and re.search(r"`%s`" % near.group(1), c["sql"], re.I) and re.search(r"\binterval\b[^,]*?(?<![`\w])%s\b(?!`)" % near.group(1), x["printed"], re.I)) and not kwfunc
+            ctx.violation({"site": "sqlparser.String", "why": "printed text does not parse", "features": f[:6], "src": c["src"], "keyword_function_name": kwfunc, "placeholder_statement": placeholder, "keyword_interval_unit": kwunit},
                           {"sql": c["sql"]}, expected="String(Parse(s)) parses",
                           observed={"printed": x["printed"], "error": x["err"]}, note="the printed statement is rejected by the parser")
         elif not x["equal"]:
